@@ -426,10 +426,10 @@ func TestVF_C02(t *testing.T) {
 				return &k
 			}
 			elems := map[string]*gabikeys.PublicKey{
-				"S*S":   mod(func(k *gabikeys.PublicKey) { k.S = new(big.Int).Mod(new(big.Int).Mul(orig.S, orig.S), orig.N) }),
-				"Z*S":   mod(func(k *gabikeys.PublicKey) { k.Z = new(big.Int).Mod(new(big.Int).Mul(orig.Z, orig.S), orig.N) }),
-				"R0*S":  mod(func(k *gabikeys.PublicKey) { k.R[0] = new(big.Int).Mod(new(big.Int).Mul(orig.R[0], orig.S), orig.N) }),
-				"N+2":   mod(func(k *gabikeys.PublicKey) { k.N = new(big.Int).Add(orig.N, bi(2)) }),
+				"S*S":  mod(func(k *gabikeys.PublicKey) { k.S = new(big.Int).Mod(new(big.Int).Mul(orig.S, orig.S), orig.N) }),
+				"Z*S":  mod(func(k *gabikeys.PublicKey) { k.Z = new(big.Int).Mod(new(big.Int).Mul(orig.Z, orig.S), orig.N) }),
+				"R0*S": mod(func(k *gabikeys.PublicKey) { k.R[0] = new(big.Int).Mod(new(big.Int).Mul(orig.R[0], orig.S), orig.N) }),
+				"N+2":  mod(func(k *gabikeys.PublicKey) { k.N = new(big.Int).Add(orig.N, bi(2)) }),
 			}
 			if s.members[i].kind == "issue" || s.members[i].kind == "issue+blind" {
 				delete(elems, "Z*S") // an issuance commitment proof does not involve Z
